@@ -31,6 +31,10 @@ SPEC = [
     ("real_star", "real*8 :: {n1}", "fix"),
     ("char_len", "character(len={d1}) :: {n1} = '{s1}'", "fix"),
     ("char_star", "character(len=*), parameter :: {n1} = \"{s1}\"", ""),
+    ("int_param_public", "integer, parameter, public :: {n1} = {d1}", "one mod"),
+    ("real_private", "real, private :: {n1}({d1})", "one mod"),
+    ("real_kind_call", "real(kind(1.0d0)) :: {n1}", "fix one"),
+    ("int_kind_sel", "integer(selected_int_kind({d1})) :: {n1}", "fix one"),
     ("int_many", "integer :: {n1}, {n2}, {n3}, {n4}, {n5}, {n6}, {n7}({d1}), i8, i9, i10 = {d1}, i11({d1})", "fix"),
     ("entity_arr_init", "integer :: {n1}({n2} + 1) = {d1}, {n3}(1:{d2}) = {d3}", "fix"),
     ("char_entity_len", "character :: {n1}({n2} - 1)*{d1}, {n3}*({d2})", "fix"),
@@ -76,6 +80,7 @@ SPEC = [
     ("interface_body", "interface\n  subroutine {n1}({n2})\n    real :: {n2}\n  end subroutine {n1}\nend interface", ""),
     ("interface_op", "interface operator (.{o1}.)\n  module procedure {n2}\nend interface", ""),
     ("enum", "enum, bind(c)\n  enumerator :: {n1} = {d1}\nend enum", ""),
+    ("derived_type_contig", "type {n1}\n  real, pointer, contiguous :: {n2}(:)\nend type {n1}", "f08"),
     ("contiguous", "real, contiguous, pointer :: {n1}(:)", "f08"),
     ("codimension", "real, codimension[*] :: {n1}", "f08"),
 ]
